@@ -124,7 +124,14 @@ class Message:
             const.Internal.I_ID_REQUEST,
             const.Internal.I_ID_RESPONSE,
         ]:
-            valid_child_ids = vol.Coerce(int)
+            valid_child_ids = vol.All(
+                vol.Coerce(int),
+                vol.Range(
+                    min=0,
+                    max=SYSTEM_CHILD_ID,
+                    msg=f"Not valid child_id: {self.child_id}",
+                ),
+            )
         valid_types = vol.All(
             vol.Coerce(int),
             vol.In(
